@@ -1,6 +1,7 @@
 """Lock-step execution of a generated history on a real container and on the
 reference model, with optional structural checks after every mutating call.
 Shared by C01, C03 (and, with a data manager attached, C04/C05)."""
+from .harness import safe_repr as _srepr  # noqa: E402
 from . import gen, harness, walker
 from .harness import MUTATING_OPS, SINGLE_KEY_OPS, brief, call, eq
 from .model import RefMap, RefSet
@@ -180,7 +181,7 @@ class LockStep:
         if op is None:
             op, args = self.g.next_op(self.walk, present)
         self.log.append((op, args))
-        rec.journal(repr((self.describe(), self.log[-40:])))
+        rec.journal(_srepr((self.describe(), self.log[-40:])))
         try:
             rargs = tuple(gen.materialize(a, self.fam, self.impl, self.c,
                                           False) for a in args)
@@ -485,7 +486,7 @@ class LockStep:
             return True
         op, args = rng.choice(cands)
         self.log.append((op, args))
-        rec.journal(repr((self.describe(), self.log[-40:])))
+        rec.journal(_srepr((self.describe(), self.log[-40:])))
         ro = call(self.c, op, args)
         rec.evaluations += 1
         rec.ev('bad-call')
